@@ -551,6 +551,12 @@ type vProg struct {
 	script  []vScript // scenario prefix: operations forced on root slices (see TestVerifC07)
 	forceC  int
 	forceT  int
+	forceK  int // >= 0: kind of the cross-handle operation (3 MoveTo, 4 MoveAndAppendTo) with source = the position given
+	forceH  int // >= 0: the other handle of a forced cross-handle operation
+	hotMax  int
+	hotAvd  int
+	roBurst int // steps left in which operations are aimed at the handle that has just been marked read-only
+	roH     int
 	nested  *vPos // a map that has just been created inside a map: the next step puts an entry into it
 	hot     *vHot // a slice that has just been filtered or shrunk: the next step prefers to copy a longer one into it
 	opnames []string
@@ -625,14 +631,18 @@ func (g *vProg) term() string {
 
 type vScript struct {
 	newT int // >= 0: ONew of that root type
+	k    int // > 0: forced cross-handle operation of that kind (3 MoveTo, 4 MoveAndAppendTo) from handle h to handle to
+	to   int
 	tag  int // map scenario: forced kind of the value put (5 = nested map), 0 = random
 	h, c int // else: slice operation c (0 grow, 5 remove-if) on field 0 of handle h
 }
 
 type vHot struct {
-	pos vPos
-	j   int
-	f   vFld
+	pos    vPos
+	j      int
+	f      vFld
+	maxLen int // >= 0: a moved-from slot; the value copied into it should have at most this many elements (its old capacity is re-used)
+	avoid  int // handle that received the move (copying it back would re-allocate)
 }
 
 // choose and build the next operation
@@ -663,6 +673,16 @@ func (g *vProg) plan() *vPlan {
 				g.ro = append(g.ro, false)
 			}}
 		}
+		if e.k > 0 {
+			g.forceK, g.forceH = e.k, e.to
+			pos := vPos{e.h, nil, g.types[e.h], g.roots[e.h]}
+			pl := g.planCrossDir(pos, 0, vSchema[pos.n][0], g.all(), false)
+			g.forceK, g.forceH = -1, -1
+			if pl != nil {
+				return pl
+			}
+			return g.plan()
+		}
 		g.forceC = e.c
 		g.forceT = e.tag
 		pl := g.planAt(vPos{e.h, nil, g.types[e.h], g.roots[e.h]}, g.all())
@@ -688,14 +708,47 @@ func (g *vProg) plan() *vPlan {
 		return &vPlan{term: fmt.Sprintf("OReadOnly %d", h), name: "readonly", run: func() {
 			*vStateOf(g.roots[h]) = internal.StateReadOnly
 			g.ro[h] = true
+			g.roBurst, g.roH = 4, h
 		}}
 	}
 	all := g.all()
+	if g.roBurst > 0 {
+		// aim the next operations at the read-only handle (every kind of mutator, every nested position)
+		g.roBurst--
+		var mine []vPos
+		for _, q := range all {
+			if q.h == g.roH {
+				mine = append(mine, q)
+			}
+		}
+		for try := 0; try < 20 && len(mine) > 0; try++ {
+			if pl := g.planAt(mine[rng.Intn(len(mine))], all); pl != nil {
+				g.out.Stat("readonly_burst_ops", 1)
+				return pl
+			}
+		}
+	}
 	if g.fresh != nil {
 		fr := g.fresh
 		g.fresh = nil
 		for _, q := range all {
 			if q.h == fr.h && vPathTerm(q.p) == vPathTerm(fr.p) {
+				if q.n == 0 && rng.Intn(4) > 0 { // element of a pcommon.Slice: make it a composite value (only those can alias)
+					v := q.node.(pcommon.Value)
+					tag := 5 + rng.Intn(3)
+					return &vPlan{term: fmt.Sprintf("OLocal %d %s (LSetRef 0 %d %d)", q.h, vPathTerm(q.p), tag, tag-3), name: "value-set-empty-container", writes: []int{q.h},
+						run: func() {
+							switch tag {
+							case 5:
+								v.SetEmptyMap()
+								g.nested = &vPos{h: q.h, p: vCopyPath(q.p, vStep{false, 0, 0})}
+							case 6:
+								v.SetEmptySlice()
+							default:
+								v.SetEmptyBytes()
+							}
+						}}
+				}
 				if q.n == 7 && rng.Intn(2) == 0 { // histogram point: set one of the optional fields (regression shape of ad68bfbbc)
 					j := 8 + rng.Intn(3)
 					o, nm := vOwner(q.node, vSchema[7][j].name)
@@ -717,7 +770,10 @@ func (g *vProg) plan() *vPlan {
 		g.hot = nil
 		if rng.Intn(10) < 8 {
 			_, hot.pos.node = vNav(g.types[hot.pos.h], g.roots[hot.pos.h], hot.pos.p)
-			if pl := g.planCrossDir(hot.pos, hot.j, hot.f, all, true); pl != nil {
+			g.hotMax, g.hotAvd = hot.maxLen, hot.avoid
+			pl := g.planCrossDir(hot.pos, hot.j, hot.f, all, true)
+			g.hotMax, g.hotAvd = -1, -1
+			if pl != nil {
 				return pl
 			}
 		}
@@ -888,6 +944,18 @@ func (g *vProg) planAt(pos vPos, all []vPos) *vPlan {
 		case c <= 3: // grow
 			if isMap {
 				k := int64(rng.Intn(6) + 1)
+				if ml := w.(pcommon.Map).Len(); ml > 0 && rng.Intn(2) == 0 { // an existing key: the overwrite path of Put*
+					i, pick := 0, rng.Intn(ml)
+					w.(pcommon.Map).Range(func(kk string, _ pcommon.Value) bool {
+						if i == pick {
+							k = vToZ(reflect.ValueOf(kk))
+							return false
+						}
+						i++
+						return true
+					})
+					g.out.Stat("map_put_existing_key", 1)
+				}
 				tag := rng.Intn(8)
 				if rng.Intn(3) == 0 {
 					tag = 5 // nested maps: the only values that a stale entry can alias
@@ -966,7 +1034,7 @@ func (g *vProg) planAt(pos vPos, all []vPos) *vPlan {
 					return []reflect.Value{reflect.ValueOf(r)}
 				})
 				m.Call([]reflect.Value{fn})
-				g.hot = &vHot{pos, j, f}
+				g.hot = &vHot{pos, j, f, -1, -1}
 			}, post: func(_ []string, panicked bool) {
 				if panicked {
 					return
@@ -985,7 +1053,7 @@ func (g *vProg) planAt(pos vPos, all []vPos) *vPlan {
 		case c == 8 && isMap:
 			k := int64(rng.Intn(6) + 1)
 			m := w.(pcommon.Map)
-			return capObs(&vPlan{term: loc(fmt.Sprintf("LMapRemove %d %s", j, vZ(k))), name: "map-remove", writes: []int{h}, run: func() { m.Remove(vKey(k)); g.hot = &vHot{pos, j, f} }})
+			return capObs(&vPlan{term: loc(fmt.Sprintf("LMapRemove %d %s", j, vZ(k))), name: "map-remove", writes: []int{h}, run: func() { m.Remove(vKey(k)); g.hot = &vHot{pos, j, f, -1, -1} }})
 		case c == 9 && isMap:
 			m := w.(pcommon.Map)
 			return &vPlan{term: loc(fmt.Sprintf("LClear %d", j)), name: "map-clear", writes: []int{h}, run: func() { m.Clear() }}
@@ -1125,17 +1193,35 @@ func (g *vProg) planCrossDir(pos vPos, j int, f vFld, all []vPos, hotDst bool) *
 	if len(cands) == 0 {
 		return nil
 	}
+	if g.forceH >= 0 {
+		var only []cand
+		for _, c := range cands {
+			if c.q.h == g.forceH && len(c.q.p) == 0 {
+				only = append(only, c)
+			}
+		}
+		if len(only) == 0 {
+			return nil
+		}
+		cands = only
+	}
 	c := cands[rng.Intn(len(cands))]
 	if hotDst && f.k != kAny {
-		for try := 0; try < 6; try++ { // prefer a source that is longer than the (filtered) destination
-			if vLen(vSlotW(c.q.n, c.q.node, c.j)) > vLen(vSlotW(pos.n, pos.node, j)) {
+		for try := 0; try < 8; try++ {
+			l := vLen(vSlotW(c.q.n, c.q.node, c.j))
+			if g.hotMax >= 0 {
+				// moved-from destination: a non-empty source that fits into the old capacity, not the receiver of the move
+				if l > 0 && l <= g.hotMax && c.q.h != g.hotAvd {
+					break
+				}
+			} else if l > vLen(vSlotW(pos.n, pos.node, j)) { // filtered destination: prefer a longer source
 				break
 			}
 			c = cands[rng.Intn(len(cands))]
 		}
 	}
 	src, sj, dst, dj := pos, j, c.q, c.j
-	if hotDst || rng.Bool() {
+	if g.forceK < 0 && (hotDst || rng.Bool()) {
 		src, sj, dst, dj = c.q, c.j, pos, j
 	}
 	sw := vSlotW(src.n, src.node, sj)
@@ -1155,13 +1241,35 @@ func (g *vProg) planCrossDir(pos vPos, j int, f vFld, all []vPos, hotDst bool) *
 	kind := rng.Intn(5)
 	if hotDst {
 		kind = 0
-		g.out.Stat("copy_into_just_filtered", 1)
+		if g.hotMax >= 0 {
+			g.out.Stat("copy_into_moved_from", 1)
+		} else {
+			g.out.Stat("copy_into_just_filtered", 1)
+		}
+	}
+	if g.forceK >= 0 {
+		kind = g.forceK
+	}
+	// the source of a move must end up without capacity: observed too (struct slices, Map, Slice)
+	addSrcCap := func(pl *vPlan) *vPlan {
+		if tracked {
+			pl.capObs = append(pl.capObs, fmt.Sprintf("(%d, %s, %d", src.h, vPathTerm(src.p), sj))
+			pl.capW = append(pl.capW, func() any { ns, n := reSrc(); return vSlotW(n, ns, sj) })
+		}
+		return pl
+	}
+	preLen := 0
+	if f.k == kSl || f.k == kPs {
+		preLen = vLen(sw)
 	}
 	hasMoveTo := f.k == kAny || f.k == kPs || (f.k == kSl && f.elem == 1)
 	hasMoveAppend := f.k == kSl && f.elem != 1
 	switch {
 	case kind == 3 && hasMoveTo:
-		return &vPlan{term: "OMoveSlot " + args, name: "move-slot", writes: []int{src.h, dst.h}, run: func() { vCall(sw, "MoveTo", dw) },
+		return addSrcCap(&vPlan{term: "OMoveSlot " + args, name: "move-slot", writes: []int{src.h, dst.h}, run: func() {
+			vCall(sw, "MoveTo", dw)
+			g.hot = &vHot{src, sj, f, preLen, dst.h}
+		},
 			post: func(_ []string, panicked bool) {
 				if panicked {
 					return
@@ -1175,11 +1283,14 @@ func (g *vProg) planCrossDir(pos vPos, j int, f vFld, all []vPos, hotDst bool) *
 				if got != "VS []" && got != "VI 0 0%Z" {
 					g.oracle("move-source-not-empty", "source is "+got)
 				}
-			}}
+			}})
 	case kind == 4 && hasMoveAppend:
 		dstBefore := vReadSlotRows(dst.n, dst.node, dj)
 		srcRows := vReadSlotRows(src.n, src.node, sj)
-		return addCap(&vPlan{term: "OMoveAppend %CAP% " + args, name: "move-and-append", writes: []int{src.h, dst.h}, run: func() { vCall(sw, "MoveAndAppendTo", dw) },
+		return addSrcCap(addCap(&vPlan{term: "OMoveAppend %CAP% " + args, name: "move-and-append", writes: []int{src.h, dst.h}, run: func() {
+			vCall(sw, "MoveAndAppendTo", dw)
+			g.hot = &vHot{src, sj, f, preLen, dst.h}
+		},
 			capOf: func() int { nd, n := reDst(); return vCap(vSlotW(n, nd, dj)) },
 			post: func(_ []string, panicked bool) {
 				if panicked {
@@ -1194,7 +1305,7 @@ func (g *vProg) planCrossDir(pos vPos, j int, f vFld, all []vPos, hotDst bool) *
 				if got := vReadSlot(n2, ns, sj); got != "VS []" {
 					g.oracle("move-source-not-empty", "source is "+got)
 				}
-			}})
+			}}))
 	}
 	g.regressionShape(srcBefore, vReadSlot(dst.n, dst.node, dj))
 	return addCap(&vPlan{term: "OCopySlot " + vStyTerm(f) + " " + args, name: "copy-slot-" + []string{"prim", "opt", "slice", "primslice", "ptr", "oneof", "value"}[f.k], writes: []int{dst.h},
@@ -1401,12 +1512,12 @@ func TestVerifC07(t *testing.T) {
 	rng := vNewRand(7)
 	nprog := vBudget(400, 12)
 	for i := 0; i < nprog; i++ {
-		g := &vProg{rng: rng, out: out, forceC: -1}
+		g := &vProg{rng: rng, out: out, forceC: -1, forceK: -1, forceH: -1, hotMax: -1, hotAvd: -1}
 		steps := 8 + rng.Intn(18)
 		if i%3 == 0 {
 			// scenario prefix: two slices of one type, both populated, the second one filtered; the
 			// generator then copies a longer slice into the filtered one (see plan: hot) and goes on at random
-			tt := []int{21, 22, 22, 23, 24, 24, 2, 3}[rng.Intn(8)]
+			tt := []int{21, 22, 22, 23, 24, 24, 2, 3, 3}[rng.Intn(9)]
 			g.script = []vScript{{newT: tt}, {newT: tt}}
 			mapTag := 0
 			if tt == 2 && rng.Intn(3) > 0 {
@@ -1418,9 +1529,23 @@ func TestVerifC07(t *testing.T) {
 			for k := 2 + rng.Intn(4); k > 0; k-- {
 				g.script = append(g.script, vScript{newT: -1, h: 1, c: 0, tag: mapTag})
 			}
-			if tt == 2 && rng.Bool() {
+			switch v := rng.Intn(3); {
+			case v == 0:
+				// variant "moved-from": a third, shorter value of the type; h1 is moved (appended) into the
+				// non-empty h0; the generator then copies the third value into the moved-from h1 (see plan: hot)
+				g.script = append([]vScript{{newT: tt}}, g.script...)
+				for k := 1 + rng.Intn(2); k > 0; k-- {
+					g.script = append(g.script, vScript{newT: -1, h: 2, c: 0, tag: mapTag})
+				}
+				if tt == 2 {
+					g.script = append(g.script, vScript{newT: -1, h: 1, k: 3, to: 0})
+				} else {
+					g.script = append(g.script, vScript{newT: -1, h: 1, k: 4, to: 0})
+				}
+				out.Stat("scenario_moved_from", 1)
+			case tt == 2 && v == 1:
 				g.script = append(g.script, vScript{newT: -1, h: 1, c: 8}) // Map.Remove instead of RemoveIf
-			} else {
+			default:
 				g.script = append(g.script, vScript{newT: -1, h: 1, c: 5})
 			}
 			steps += len(g.script)
